@@ -217,7 +217,7 @@ WEIGHT_POOL = [0.5, 0.25, 0.75, 1.0, 0.125, 1.5, 2.0, -0.25, -0.5, 0.0, 0.3, 0.7
 
 
 def gen_case(rng, mixed):
-    k = rng.choice([2, 2, 3, 4])
+    k = rng.choice([2, 2, 3, 4, 2, 3, 4, rng.range(5, 12)])
     allw = [b"a", b"b", b"c", b"d", b"e", b"f", b"g", b"\xc3\xa9"]
     comps = []
     base_order = rng.range(2, 4)
@@ -242,6 +242,83 @@ def gen_case(rng, mixed):
     if rng.chance(1, 4):
         case["mem2"] = list(rng.choice(MEM_CONFIGS))
     return case
+
+
+def gen_many_models_case(rng):
+    """enough component models for the packed vector of per-model back-off levels (2 bits per model for orders 2-3,
+    3 bits for orders 4-7) to need one, two, three or more 64-bit words: around 21/22, 32/33, 42/43, 64/65 models"""
+    order = rng.choice([4, 4, 3, 2, 5])
+    per_word = 21 if order >= 4 else 32
+    k = rng.choice([per_word, per_word + 1, 2 * per_word, 2 * per_word + 1, 2 * per_word + rng.range(2, 8), 3 * per_word + 1])
+    allw = [b"a", b"b", b"c", b"d", b"e", b"f"]
+    comps = []
+    for i in range(k):
+        ws = allw[:rng.range(2, 6)]
+        corpus = b"".join(b" ".join(rng.choice(ws) for _ in range(rng.range(2, 7))) + b"\n" for _ in range(rng.range(2, 5)))
+        comps.append({"corpus": corpus, "order": order})
+    weights = [rng.choice([0.02, 0.03, 0.05, 0.04, 0.0, -0.01, 0.0625, 0.1]) for _ in range(k)]
+    if all(w == 0.0 for w in weights):
+        weights[0] = 0.05
+    return {"comps": comps, "weights": weights, "mem": list(rng.choice(MEM_CONFIGS))}
+
+
+def gen_list_case(rng, quick):
+    """list-like component: one context followed by most of the vocabulary, with tiny sort blocks, so that the successors
+    of a single context exceed one stream block (the normaliser has to hold them all to rewind)"""
+    v = rng.choice([40, 70, 110] if quick else [40, 70, 120, 200, 300])
+    heads = [b"the", b"a", b"of", b"to"][:rng.range(1, 4)]
+    # several contexts (each head, and "<s> head") that are each followed by almost the whole vocabulary: they start at
+    # different offsets of the stream, so at least one of them straddles a block boundary
+    lines = [h + b" n%03d" % i for h in heads for i in range(v)]
+    if rng.chance(1, 2):
+        lines = [l + b" x" for l in lines[: v // 3]] + lines[v // 3:]          # some deeper contexts too
+    lines += [b"a b " + heads[0] + b" n001", b"b a"]
+    rng.shuffle(lines)
+    head = heads[0]
+    # records of order k take 4k+4 bytes: the higher the order of the list context, the sooner its successors
+    # (almost the whole vocabulary) outgrow a stream that was sized for shorter records
+    other = b"".join(b" ".join(rng.choice([b"a", b"b", b"c", head]) for _ in range(rng.range(2, 6))) + b"\n" for _ in range(rng.range(5, 9)))
+    comps = [{"corpus": b"".join(l + b"\n" for l in lines), "order": rng.choice([3, 3, 4, 2])},
+             {"corpus": other, "order": rng.range(2, 3)}]
+    if rng.chance(1, 3):
+        comps.reverse()
+    return {"comps": comps, "weights": [rng.choice([0.7, 0.5, 1.0, 0.25]), rng.choice([0.3, 0.5, -0.25, 1.5])],
+            "mem": list(rng.choice(TINY_BLOCKS))}
+
+
+# bounded sequence encoding ---------------------------------------------------------------------------
+def gen_bse_case(rng):
+    n = rng.choice([0, 1, 2, 3, 7, 8, 9, 20, 21, 22, 31, 32, 33, 42, 43, 44, 63, 64, 65, 66, 100, 130, rng.range(0, 200)])
+    style = rng.below(5)
+    if style == 0:
+        bounds = [rng.choice([2, 3, 4, 5, 7, 8, 9, 16, 17, 127, 128, 255])] * n            # every width 1..8 bits
+    elif style == 1:
+        bounds = [rng.choice([0, 1, 2, 3, 4, 5, 6, 7])] * n                                # the bounds interpolate uses
+    elif style == 2:
+        bounds = [rng.choice([0, 1, 2, 3, 4, 5, 8, 9, 16, 100, 255]) for _ in range(n)]
+    else:
+        bounds = [rng.choice([2, 3, 4, 5, 6, 7]) for _ in range(n)]
+    vstyle = rng.below(3)
+    vals = []
+    for b in bounds:
+        top = max(b, 1) - 1
+        vals.append(top if vstyle == 0 else 0 if vstyle == 1 and rng.chance(1, 2) else rng.below(top + 1))
+    h = lambda l: bytes(l).hex() if l else "-"
+    return "B %s %s" % (h(bounds), h(vals))
+
+
+def oracle_bse(case, out):
+    """what was encoded is decoded again, nothing outside the reserved bytes is written"""
+    _, bh, vh = case.split()
+    if out.startswith("EXCEPTION") or "D:" not in out:
+        return out
+    if "OVERWRITE" in out:
+        return "Encode/Decode wrote outside EncodedLength()/the value array"
+    d = out.split("D:")[1].split()[0]
+    if d != vh:
+        bad = next(i for i in range(len(vh) // 2) if d[2 * i:2 * i + 2] != vh[2 * i:2 * i + 2]) if vh != "-" and d != "-" else 0
+        return "decode(encode(values)) differs from the values at entry %d of %d" % (bad, len(bh) // 2 if bh != "-" else 0)
+    return None
 
 
 def gen_single(rng):
@@ -269,7 +346,8 @@ def fmt_w(w):
     return repr(w)
 
 
-MEM_CONFIGS = [("20M", "1M"), ("20M", "64K"), ("5M", "256K"), ("1M", "4K"), ("100K", "1K")]     # -S >= 4 * --sort_block
+MEM_CONFIGS = [("20M", "1M"), ("20M", "64K"), ("5M", "256K"), ("1M", "4K"), ("100K", "1K"), ("64K", "256b"), ("2K", "256b")]     # -S >= 4 * --sort_block
+TINY_BLOCKS = [("100K", "1K"), ("1M", "1K"), ("64K", "256b"), ("2K", "256b"), ("20K", "512b")]
 
 
 def run_interpolate(ctx, tools, prefixes, weights, tag, mem=("20M", "1M")):
@@ -403,7 +481,7 @@ def run(ctx):
     ctx.set_proof(pres)
     rng = ctx.rng
     tools = {n: vlib.tool(n) for n in ("lmplz", "interpolate")}
-    impl_v = vlib.compile_driver("c13_driver", DRIVER, libs=("kenlm_interpolate", "kenlm", "kenlm_util"), extra=("-fopenmp",))
+    impl_v = vlib.compile_driver("c13_driver", DRIVER, libs=("kenlm_interpolate", "kenlm", "kenlm_util"), extra=("-fopenmp", "-DNDEBUG"))
     spec_fail = []
     model_in, model_expect = [], []
     nontrivial = 0
@@ -422,12 +500,24 @@ def run(ctx):
         model_in.append(ml)
         model_expect.append(("vocab", c, exp))
 
+    # (1b) the packing of the per-model back-off levels (lm/interpolate/bounded_sequence_encoding.hh)
+    bcases = ["B - -", "B 04040404 03020100", "B " + "ff" * 9 + " " + "fe" * 9, "B " + "04" * 43 + " " + "03" * 43,
+              "B " + "03" * 65 + " " + "02" * 65] + [gen_bse_case(rng) for _ in range(ctx.pick(1500, 30000))]
+    bout = vlib.run_lines(impl_v, bcases)
+    for c, o in zip(bcases, bout):
+        msg = o if (o.startswith("DRIVER-DIED") or o == "<no answer>") else oracle_bse(c, o)
+        if msg:
+            spec_fail.append(("bse", c, o, msg))
+    ctx.coverage["bounded_sequence_cases"] = len(bcases)
+
     # (2) the tool: same orders, mixed orders, single model
     cases = corpus_cases()
     ctx.count("corpus_cases", len(cases))
     cases += [("same", gen_case(rng, False)) for _ in range(ctx.pick(40, 700))] + \
             [("mixed", gen_case(rng, True)) for _ in range(ctx.pick(12, 200))] + \
-            [("single", gen_single(rng)) for _ in range(ctx.pick(6, 100))]
+            [("single", gen_single(rng)) for _ in range(ctx.pick(6, 100))] + \
+            [("many", gen_many_models_case(rng)) for _ in range(ctx.pick(3, 40))] + \
+            [("list", gen_list_case(rng, ctx.quick)) for _ in range(ctx.pick(5, 40))]
     kinds = {}
     results = []
     for kind, case in cases:
@@ -500,6 +590,8 @@ def run(ctx):
     for f in spec_fail:
         if f[0] == "vocab":
             ctx.report("spec:merge_vocab", f[3], {"kind": "vocab", "case": f[1], "impl_output": f[2]})
+        elif f[0] == "bse":
+            ctx.report("spec:bounded_sequence_encoding", f[3], {"kind": "bse", "case": f[1], "impl_output": f[2][:600]})
         else:
             _, case, rc, msg, sig = f
             if sig in seen:
@@ -556,8 +648,14 @@ def undump(c):
 
 def replay(ctx, obj):
     r = obj["replay"]
+    if r.get("kind") == "bse":
+        impl = vlib.compile_driver("c13_driver", DRIVER, libs=("kenlm_interpolate", "kenlm", "kenlm_util"), extra=("-fopenmp", "-DNDEBUG"))
+        o = vlib.run_lines(impl, [r["case"]])[0]
+        msg = oracle_bse(r["case"], o)
+        print("case:", r["case"][:300], "\nimpl:", o[:300], "\noracle:", msg or "ok")
+        return 1 if msg else 0
     if r.get("kind") == "vocab":
-        impl = vlib.compile_driver("c13_driver", DRIVER, libs=("kenlm_interpolate", "kenlm", "kenlm_util"), extra=("-fopenmp",))
+        impl = vlib.compile_driver("c13_driver", DRIVER, libs=("kenlm_interpolate", "kenlm", "kenlm_util"), extra=("-fopenmp", "-DNDEBUG"))
         o = vlib.run_lines(impl, [r["case"]])[0]
         msg = o if o.startswith("EXCEPTION") else oracle_vocab(o)
         print("case:", r["case"], "\nimpl:", o, "\noracle:", msg or "ok")
